@@ -589,6 +589,14 @@ func (r *runner) doStep(st Step) {
 		if s.Probe(kind, extra) {
 			r.stats["probes"]++
 		}
+	case "holdop": // park whoever next enters Channel.Send (or Close) inside it, and keep it there while the scenario goes on
+		kind := "send"
+		if st.Kind == "close" {
+			kind = "close"
+		}
+		s.HoldOp(kind)
+	case "unhold":
+		s.Unhold()
 	case "rand":
 		for i := 0; i < max(1, st.N); i++ {
 			if !s.ReleaseRandom() {
@@ -641,6 +649,10 @@ func (r *runner) doStep(st Step) {
 	}
 	if len(s.Waiting) == 0 {
 		r.rec.Log("Quiescent")
+	} else if s.Hold != nil && s.Others() == 0 {
+		// nothing can move except the channel operation the scenario holds: what does not need that operation
+		// (nor the lock its caller may hold) to finish must have happened all the same
+		r.rec.Log("QuiescentOp", "op", s.Hold.Site)
 	}
 }
 
@@ -716,6 +728,7 @@ func Run(t *testing.T, sc *Scenario, emit func(evs []vh.Event, stats map[string]
 		}
 
 		// Tear-down: release every handler, run everything to completion, close the peer end.
+		s.Unhold()
 		rec.Log("Teardown")
 		for round := 0; round < 50; round++ {
 			r.doStep(Step{A: "releaseall"})
